@@ -172,6 +172,7 @@ def run(tier):
     exe = vlib.harness('asan', 'c03_extra')
     bases = base_files()
     F = Files(tier)
+    bl_cache = {id(p): p.encode() for p in bases['BL'][1]}
     alpha = ALPHA_Q if tier == 'quick' else ALPHA_T
     alpha2 = ALPHA_Q2 if tier == 'quick' else ALPHA_T2
     cases, meta = [], []      # meta: dict(phase, file, mode, ops, mut)
@@ -294,6 +295,30 @@ def run(tier):
             for mode in 'nusp':
                 for s in d1:
                     add_case('E', base_idx[b], mode, s, (b, f'ibytes{ib}'), ib=ib)
+
+    # ---------------------------------------------------------------- H. long runs of junk INSIDE a link of a large seekable file + seek sweep
+    # a run of pages of the large chain BL (M 62 KB / N 126 KB / A 3 KB) is replaced by {zeros, 0xff, 'OggS'-sprinkled garbage} of
+    # {64Ki-1, 64Ki, 128Ki, 128Ki+1, 200Ki} bytes at the start / middle / end of a link and straddling a link boundary; every seek
+    # kind and lap variant is then called (fresh handle per call) on a grid of targets over the handle's own total (before / inside /
+    # after the damage), followed by a read and the position queries; plus one handle per seek kind that walks the whole grid.
+    step = 25 if tier == 'quick' else 10
+    grid = list(range(0, 1001, step))
+    for pos, (first, last) in hole_positions(bases['BL'][1]).items():
+        for kind in ('zero', 'ff', 'oggs'):
+            for n in (65535, 65536, 131072, 131073, 204800):
+                blob = L.encode_items(L.hole_items(bases['BL'][1], first, last, kind, n), bl_cache)
+                fi, new = F.add(blob, {'base': 'BL', 'op': 'hole', 'where': pos, 'first': first, 'last': last, 'fill': kind, 'bytes': n})
+                if not new:
+                    continue
+                for sk in ('ps', 'pp', 'ts', 'tp', 'rs', 'PS', 'PP', 'TS', 'TP', 'RS'):
+                    for g in grid:
+                        add_case('H', fi, 's', (f'{sk}%{g}', 'rf4096', 'bi', 'x0'), ('BL', 'hole_' + pos))
+                    walk = []
+                    for g in grid[::4]:
+                        walk += [f'{sk}%{g}', 'rf4096']
+                    add_case('H', fi, 's', tuple(walk) + ('x0',), ('BL', 'hole_' + pos))
+                for mode in 'nt':
+                    add_case('H', fi, mode, ('x0', 'RE', 'bi', 'x0'), ('BL', 'hole_' + pos))
 
     # ---------------------------------------------------------------- G. crafted set-up headers / spec-valid extremes
     crafted = {
@@ -581,6 +606,20 @@ def many_links_case(n):
     return {'links': n, 'bytes': len(data), 'result': r}
 
 
+def hole_positions(pages):
+    """page index ranges (inclusive) of the large chain that get replaced by junk: >= 9 audio pages (> 1 s of audio) each"""
+    starts = [k for k, p in enumerate(pages) if p.flags & 2] + [len(pages)]
+    m0, n0, a0 = starts[0], starts[1], starts[2]
+    return {
+        'start_of_first_link': (m0 + 2, m0 + 12),
+        'start_of_link': (n0 + 2, n0 + 12),
+        'middle_of_link': (n0 + 10, n0 + 21),
+        'end_of_link': (a0 - 12, a0 - 2),            # the EOS page survives
+        'straddling_link_boundary': (n0 - 6, n0 + 6),  # tail of M, headers and first audio pages of N
+        'straddling_after_headers': (n0 - 6, n0 - 1),  # tail of M incl. its EOS page; N intact
+    }
+
+
 class LazyReplay(dict):
     """Replay record; the file bytes (hex, files <= 12000 bytes) are read only if the case is actually reported."""
 
@@ -682,6 +721,9 @@ def replay(path):
         data, pages = bases[rec['base']]
         if rec['op'] == 'intact':
             open(fp, 'wb').write(data)
+            rec = None
+        elif rec['op'] == 'hole':
+            open(fp, 'wb').write(L.encode_items(L.hole_items(pages, rec['first'], rec['last'], rec['fill'], rec['bytes'])))
             rec = None
     if not r.get('file_hex') and rec is not None:
         items = L.mutate_items(pages, rec['page'], rec['op'], L.other_serial_for(pages, rec['page']))
